@@ -65,6 +65,32 @@ theorem read_fresh_is_zero (st st' : St) (off : Int) (d : Bytes) (sp : Nat) (hs 
   rw [read_eq_flat _ _ _ hs']
   exact flatRead_fresh_after_flatWrite st st' off d sp hp hi hw o n hlo hhi hb hdis
 
+/-- **Copy is memmove on the flat array.** With shared windows, a copy whose source lies inside the logical size
+    either moves the bytes exactly as `memmove` would on one flat array (whichever branch is taken: the mapped
+    first window, or the 4096-byte chunk loop through the file, also for a destination that overlaps the source
+    from below), or — only when the destination starts inside the source and the file path is taken — is
+    refused with `overflow` and changes nothing. -/
+theorem copy_is_memmove (st : St) (off siz noff : Nat) (hs : AllShared st.slots) (hi : Inv st) (hc : 0 < st.cbuf)
+    (hsrc : off + siz ≤ st.fsize) :
+    copy st off siz noff = (.ok, { st with file := writeAt st.file noff (readAt st.file off siz) }) ∨
+    (copy st off siz noff = (.overflow, st) ∧ off < noff ∧ noff < off + siz) := by
+  rw [copy_eq_flat _ _ _ _ hs]
+  have hfile : fileCopy st.cbuf st.file off siz noff = (.ok, writeAt st.file noff (readAt st.file off siz)) ∨
+      (fileCopy st.cbuf st.file off siz noff = (.overflow, st.file) ∧ off < noff ∧ noff < off + siz) := by
+    by_cases h : noff ≤ off ∨ off + siz ≤ noff
+    · left; exact fileCopy_eq_memmove _ hc _ _ _ _ (by rw [hi.1]; exact hsrc) h
+    · right; exact ⟨fileCopy_forward _ _ _ _ _ (by omega) (by omega), by omega, by omega⟩
+  unfold flatCopy
+  split
+  · split
+    · left; rfl
+    · rcases hfile with e | ⟨e, h1, h2⟩
+      · left; rw [e]
+      · right; rw [e]; exact ⟨rfl, h1, h2⟩
+  · rcases hfile with e | ⟨e, h1, h2⟩
+    · left; rw [e]
+    · right; rw [e]; exact ⟨rfl, h1, h2⟩
+
 /-- **The resize policy is followed.** When `ensure_size` (also the growth step of a write) succeeds on a
     file that is too small, the new logical size is exactly what the configured policy function proposed
     (`policy`: default = round up; Fibonacci = round up `max (current + previous) needed`; multiplier =
